@@ -231,10 +231,25 @@ def readers(ctx):
         ctx.violation("readers(trace-rejected)", "reader event %s is not explained by DatabaseTrace.tla: %s" % (hw, ev),
                       {"line": hw, "event": ev})
     seen = set()
+    pc_at = []
+    pc = 0
+    for e in events:
+        if e["a"] == "Reset":
+            pc = e.get("pc", 0)
+        pc_at.append(pc)
+    older = 0
     for (cls, line, rest) in res.mismatches():
-        if cls in seen:
-            continue
-        seen.add(cls)
         ev = events[line - 1]
-        ctx.violation("readers(%s)" % cls, "concurrent reader %s: %s; got/want %s" % (ev.get("r"), ev, rest),
-                      {"class": cls, "event": ev, "before": events[max(0, line - 12):line]})
+        if cls in ("stale-read(State)", "committed-not-visible(State)"):
+            # one class of history: a State read answered with an older state than a commit that had returned
+            key = "readers(State-older-than-committed;%s)" % ("perm-state-cache" if pc_at[line - 1] > 0 else "no-cache")
+            older += 1
+        else:
+            key = "readers(%s)" % cls
+        if key in seen:
+            continue
+        seen.add(key)
+        ctx.violation(key, "concurrent reader %s: %s (permanent store state cache size %d); got/want %s" % (
+            ev.get("r"), ev, pc_at[line - 1], rest),
+            {"class": cls, "event": ev, "permcache": pc_at[line - 1], "before": events[max(0, line - 12):line]})
+    ctx.extra["reader_state_reads_older_than_committed"] = older
